@@ -23,7 +23,7 @@ mkdir -p "$vd/evidence"
 export VERIF_DIR="$vd" VERIF_REPO="$wt"
 for id in "$@"; do
   log="/tmp/seedrun-$tag-$id.log"
-  (cd "$vd" && VERIF_BUDGET_S="${SEED_BUDGET_S:-120}" timeout 1500 ./check "$id" quick > "$log" 2>&1
+  (cd "$vd" && VERIF_BUDGET_S="${SEED_BUDGET_S:-120}" timeout "${SEED_TIMEOUT:-1500}" ./check "$id" "${SEED_TIER:-quick}" > "$log" 2>&1
    echo "$id exit=$? $(grep -c '^VIOLATION' "$log") violations: $(grep -m2 -A3 '^VIOLATION' "$log" | grep 'core=' | head -2 | cut -c1-220)")
   mkdir -p /tmp/seedreplays-$tag && cp "$vd"/replays/* /tmp/seedreplays-$tag/ 2>/dev/null
   tail -3 "$log" | cut -c1-300
